@@ -295,6 +295,21 @@ func buildOverlay(g *Group, native bool) (map[string][]byte, []string, error) {
 		ov[p] = nb
 		scaled = append(scaled, fmt.Sprintf("scaled: %s in %s: %s -> %s", sc[1], sc[0], strings.TrimSpace(old), sc[2]))
 	}
+	// development aid (never set by the registered commands): run the checks
+	// against modified copies of repository files without touching /repo
+	for _, kv := range strings.Split(os.Getenv("VERIF_EXTRA_OVERLAY"), ",") {
+		if p := strings.SplitN(kv, "=", 2); len(p) == 2 {
+			b, err := os.ReadFile(p[1])
+			if err != nil {
+				return nil, nil, err
+			}
+			if _, dup := ov[p[0]]; dup {
+				return nil, nil, fmt.Errorf("extra overlay collides with a scaled file: %s", p[0])
+			}
+			ov[p[0]] = b
+			scaled = append(scaled, "DEVELOPMENT OVERLAY (not /repo's file): "+p[0])
+		}
+	}
 	return ov, scaled, nil
 }
 
@@ -616,6 +631,10 @@ func cmdRun(args []string) int {
 	}
 	prop := args[0]
 	fs.Parse(args[1:])
+	if os.Getenv("VERIF_EXTRA_OVERLAY") != "" {
+		fmt.Println("NOTE: VERIF_EXTRA_OVERLAY is set: checking modified copies of repository files, no evidence is written")
+		*noEvidence = true
+	}
 	if *tier != "quick" && *tier != "thorough" {
 		*tier = "quick"
 	}
